@@ -6,7 +6,12 @@ name of the rename alphabet, and options whose names contain the text `CONFIG_` 
   plain    no Kconfig expression mentions a deprecated name (the old name has no Symbol object at all);
   mention  every deprecated name of the table occurs in a `default y if <rel>`, a `depends on <rel>` and a
            `select XT if <rel>` condition, so it exists in Kconfig.syms as an undefined, node-less symbol;
-  mention_default / mention_depends / mention_select (thorough, 1-line tables): one of the three positions only.
+  mention_default / mention_depends / mention_select (thorough, 1-line tables): one of the three positions only;
+  mention_new   (tables with a replacement name that is NOT a defined option) leftover expressions mention that REPLACEMENT name
+           -- `depends on !NEW`, `default y if NEW = 42` -- so it exists in Kconfig.syms as a node-less symbol of unknown type,
+           the old name is mentioned nowhere;      mention_both = mention + mention_new.
+An old name whose replacement is not defined has no type of its own: its lines / block entries are written with values of every
+type (y, n, 42, 0x2a, "v w").
 Rename tables = every 1- and 2-line selection of the alphabet, plus every 3-line ordering of the lines that map one and the
 same old name; the alphabet has old names and new names with an embedded / doubled prefix (CONFIG_OLD_CONFIG_B,
 CONFIG_CONFIG_OLD_B, CONFIG_E_CONFIG_B ...) and one old name with three different targets (CONFIG_B, CONFIG_BH, !CONFIG_B).
@@ -15,6 +20,18 @@ alphabetical order of the listed paths is part of the case and identical when th
   1 file (mm), the same file listed twice (mm-mm); a 2-line table as 2 files listed in path order (aa-zz), against path
   order (zz-aa), and with the first file listed again at the end (aa-zz-aa, zz-aa-zz: its mapping is in force again); a
   3-line table as 3 files in each of the 6 listings of aa, mm, zz.  The table in force = the lines in LISTING order.
+ROUTES by which the listing reaches the library (plain tree; the table in force must be the one the LISTING gives, whichever
+route delivers it):
+  list      Kconfig.load_rename_files(listing)                                   (all of the above)
+  env:*     load_rename_files_from_env(config, sdkconfig_rename=, list_separator=) -- what kconfgen and menuconfig call -- with the
+            listing divided between the explicitly named file and COMPONENT_SDKCONFIG_RENAMES: `explicit` (1 file, variable not
+            set), `space` / `semicolon` (every file in the variable, that separator), `explicit+space` / `explicit+semicolon`
+            (first listed file explicit, the others in the variable);
+  kconfgen:*  the kconfgen command line (--kconfig --config --sdkconfig-rename --list-separator --output config) run in-process
+            as one invocation with the variable set; observation: the sdkconfig it writes (with its deprecated block);
+  crossed with the 1-line sdkconfig files (thorough: <=2 lines for 1-line tables and the aa-zz / zz-aa layouts); quick: env over
+  1-line tables (mm, mm-mm), 2-line tables (mm, aa-zz, zz-aa) and the 3-file listings, kconfgen with the explicit flag over 1-line
+  tables and the aa-zz / zz-aa layouts; thorough: every layout (kconfgen: all but aa-zz-aa / zz-aa-zz) x every division.
 sdkconfig files = every ordered sequence of <=2 (quick) / <=3 (thorough) lines over
 {OLD=v, NEW=v, # OLD is not set, # NEW is not set} for the old names and the defined new names of every line of the table
 (also of a line that a later line overrides).
@@ -22,7 +39,9 @@ Composed sdkconfig files (single-file tables): files in which ordinary lines and
   W+L      the file the library writes with write_deprecated=True (6 configurations) + an appended override line;
   B+L, L+B, B0+L, B+L+B, B+B+L   hand-made: block (one entry / empty) before, after, around and twice before a line;
   L+U      a block that is never closed (everything up to the end of the file is the block);
-  thorough (1-line tables): + W+L+L, L+B+L, L+U(2 entries), and the two-block shapes with different entries;
+  B, U     nothing but a block with one entry (no line outside names the entry: the entry carries the full demand of (5));
+  thorough (1-line tables; 2-line tables in the plain / mention_new / mention_both trees up to the hand-made shapes above):
+           + W+L+L, L+B+L, L+U(2 entries), B(2 entries), and the two-block shapes with different entries;
 lines and block entries range over the same line alphabet (same name inside and outside, contradicting or not).
 
 Oracles
@@ -40,7 +59,12 @@ Oracles
   (5) composed files, load_deprecated=True: the defined options have the values / user values of the file with the blocks
       cut out (lines outside a block are loaded, also when they use a name that a block lists), and the block entries
       evaluate to what was written (entries written twice with different values, or named by an outside line, carry no
-      demand).  A block entry that names a DEFINED option is outside the statement: such files are skipped in (5).
+      demand) -- ALSO an entry whose replacement is not a defined option (typed by the written value: y/n bool, 0x.. hex,
+      digits int, otherwise string), whether or not a leftover expression mentions that replacement; when every entry is
+      determinate the mention tree's own expressions take the value <rel> has for the entries (as in (3)).
+      A block entry that names a DEFINED option is outside the statement: such files are skipped in (5).
+  (6) routes: oracles (1) and (2) with the rename files delivered by the route; the reference is the table that the listing
+      gives (a route that drops, reorders or re-splits the files makes an old name differ from its replacement).
 """
 
 from __future__ import annotations
@@ -49,10 +73,11 @@ import itertools
 import os
 import re
 import shutil
+import sys
 from typing import Any, Dict, Iterator, List, Optional, Tuple
 
 from .. import common, impl, kgen
-from ..kgen import Cfg, L, Or, Program, Rel, S
+from ..kgen import Cfg, L, Not, Or, Program, Rel, S
 
 ID = "C11"
 LEVEL = "exploration"
@@ -70,10 +95,22 @@ RULE = (
     "<=2 free lines (plain tree). A mention tree is generated per table (it mentions the table's old names that are not defined "
     "options; a table without such a name has no mention tree). distinct_nontrivial = distinct (tree, table, layout, file) tuples in "
     "which at least one line uses a deprecated name + distinct (tree, table, configuration) triples whose written file has a "
-    "deprecated block + distinct (tree, table, composed file, flag) tuples that contain a block."
+    "deprecated block + distinct (tree, table, composed file, flag) tuples that contain a block. Added dimensions: (a) ROUTES -- the "
+    "same listings delivered by load_rename_files_from_env() (explicit file / COMPONENT_SDKCONFIG_RENAMES with space and semicolon "
+    "separators / explicit file + variable) and by the kconfgen command line (--sdkconfig-rename, --list-separator, the variable), "
+    "plain tree x 1-line sdkconfig files (thorough: <=2 lines where the listing has <=2 distinct files in a row); (b) trees "
+    "mention_new / mention_both in which the REPLACEMENT name of a mapping to an undefined option is mentioned by leftover "
+    "expressions, for every table with such a mapping, x files / composed files as for the mention tree, the alias written with "
+    "values of every type; composed shapes B and U (a block and nothing else)."
 )
 ASSUMPTIONS = [
-    "a mapping to an option that is not defined carries no obligation except not raising and not disturbing other options",
+    "a mapping to an option that is not defined carries no obligation for ORDINARY lines except not raising and not disturbing other "
+    "options; a REQUESTED block entry for such an old name still evaluates to the value written, typed by that value",
+    "routes: paths contain neither blanks nor semicolons; COMPONENT_SDKCONFIG_RENAMES has no empty elements (no leading / trailing / "
+    "doubled separator); the menuconfig entry point (SDKCONFIG_RENAME, SDKCONFIG_RENAMES_LIST_SEPARATOR) calls the same function "
+    "as the env route and is not started; kconfserver's own splitting of the variable is not explored here",
+    "`is not set` written for a number / string alias inside a requested block writes no value: the tree expressions over it carry "
+    "no demand",
     "hand-written files carry no `# default:` markers in front of deprecated names",
     "the reference load of a translated file is computed once per (tree, table, translated text): loading is deterministic (the runner "
     "re-executes every reported case twice in fresh processes)",
@@ -125,10 +162,13 @@ BASE = [
 ]
 TYPES = {"B": "bool", "BH": "bool", "BP": "bool", "I": "int", "H": "hex", "S": "string", "DEFINED_OLD": "bool",
          "E_CONFIG_B": "bool", "E_B": "bool", "E_CONFIG_S": "string"}
-VALS = {"bool": ["y", "n"], "int": ["7", "99"], "hex": ["0x2a"], "string": ['"v w"', '"q\\"x"']}
+VALS = {"bool": ["y", "n"], "int": ["7", "99"], "hex": ["0x2a"], "string": ['"v w"', '"q\\"x"'],
+        # an old name whose replacement is NOT defined has no type of its own: it is written with values of every type
+        "any": ["y", "n", "42", "0x2a", '"v w"']}
 
 TREE_KINDS_QUICK = ["plain", "mention"]
 TREE_KINDS_SINGLE = ["mention_default", "mention_depends", "mention_select"]  # thorough, 1-line tables
+TREE_KINDS_NEW = ["mention_new", "mention_both"]  # tables with a replacement name that is not defined
 
 
 def _split_line(line: str) -> Tuple[str, str, bool]:
@@ -140,7 +180,7 @@ def _old_types() -> Dict[str, str]:
     out: Dict[str, str] = {}
     for line in ALPHABET:
         old, new, _inv = _split_line(line)
-        t = TYPES.get(new, "bool")
+        t = TYPES.get(new, "any")
         assert out.setdefault(old, t) == t, old  # an old name has one type over the whole alphabet
     return out
 
@@ -151,7 +191,7 @@ OLD_TYPE = _old_types()
 def rel_of(old: str) -> tuple:
     """the condition through which a mention tree refers to an old name; n while the name is undefined"""
     t = OLD_TYPE[old]
-    if t == "bool":
+    if t in ("bool", "any"):
         return S(old)
     if t == "int":
         return Rel("<", S(old), L("8"))
@@ -165,8 +205,8 @@ def rel_holds(old: str, written: Optional[str]) -> bool:
     t = OLD_TYPE[old]
     if written is None:
         return False
-    if t == "bool":
-        return written == "y"
+    if t in ("bool", "any"):
+        return written == "y"  # (a number / string entry is not y)
     if t == "int":
         return int(written) < 8
     if t == "hex":
@@ -183,25 +223,48 @@ def mentioned_olds(tab: Tuple[int, ...]) -> List[str]:
     return out
 
 
+def undefined_news(tab: Tuple[int, ...]) -> List[str]:
+    """replacement names of the table that are not defined options"""
+    out: List[str] = []
+    for i in tab:
+        new = _split_line(ALPHABET[i])[1]
+        if new not in TYPES and new not in out:
+            out.append(new)
+    return out
+
+
+def mentions_olds(kind: str) -> bool:
+    return kind not in ("plain", "mention_new")
+
+
 def tree_files(kind: str, tab: Tuple[int, ...]) -> Optional[Dict[str, str]]:
     """None: this tree shape does not exist for the table"""
     ch = list(BASE)
-    if kind != "plain":
+    if mentions_olds(kind):
         olds = mentioned_olds(tab)
         if not olds:
             return None
         rels = [rel_of(o) for o in olds]
-        if kind in ("mention", "mention_default"):
+        if kind in ("mention", "mention_both", "mention_default"):
             for j, rel in enumerate(rels):
                 ch.append(Cfg(f"X{j}", "bool", defaults=[(L("y"), rel)]))
-        if kind in ("mention", "mention_depends"):
+        if kind in ("mention", "mention_both", "mention_depends"):
             dep = rels[0]
             for rel in rels[1:]:
                 dep = Or(dep, rel)
             ch.append(Cfg("XDEP", "bool", prompt="legacy option", depends=[dep], defaults=[(L("y"), None)]))
-        if kind in ("mention", "mention_select"):
+        if kind in ("mention", "mention_both", "mention_select"):
             ch.append(Cfg("XT", "bool"))
             ch.append(Cfg("XSEL", "bool", prompt="legacy selector", defaults=[(L("y"), None)], selects=[("XT", rel) for rel in rels]))
+    if kind in ("mention_new", "mention_both"):
+        # leftover expressions over a REPLACEMENT name that is not defined (any more): the name exists in Kconfig.syms as a
+        # node-less symbol of unknown type
+        news = undefined_news(tab)
+        if not news:
+            return None
+        for j, new in enumerate(news):
+            ch.append(Cfg(f"XN{j}", "bool", prompt="leftover user of a removed option", depends=[Not(S(new))], defaults=[(L("y"), None)]))
+            ch.append(Cfg(f"XNV{j}", "bool", defaults=[(L("y"), Rel("=", S(new), L("42")))]))
     return kgen.render(Program(children=ch))
 
 
@@ -266,9 +329,66 @@ def tables(tier: str) -> Iterator[Tuple[Tuple[int, ...], str]]:
                 yield t, lay
 
 
+# ---- routes ----------------------------------------------------------------------------------------------------------
+# A route is the way by which the LISTING of rename files reaches the library, `<api>:<split>`:
+#   list                          Kconfig.load_rename_files(listing)
+#   env:<split>                   esp_kconfiglib.deprecated.load_rename_files_from_env(config, sdkconfig_rename=, list_separator=)
+#                                 (what kconfgen and menuconfig call)
+#   kconfgen:<split>              the kconfgen command line (--sdkconfig-rename, --list-separator, --config, --output config), run
+#                                 in-process like one invocation; the observation is the written sdkconfig
+# <split> says how the listing is divided between the explicitly named file and COMPONENT_SDKCONFIG_RENAMES:
+#   explicit                      (1-file listings) the file is the explicit one, the variable is not set
+#   space / semicolon             every file in the variable, joined by that separator, no explicit file
+#   explicit+space / explicit+semicolon   (>=2 listed) the first listed file is the explicit one, the others are in the variable
+# In every case the library is handed the same ordered list, so the table in force is effective(tab, layout).
+def splits_of(layout: str) -> List[str]:
+    n = len(layout.split("-"))
+    return ["explicit", "space", "semicolon"] if n == 1 else ["space", "semicolon", "explicit+space", "explicit+semicolon"]
+
+
+def routes_of(tier: str, kind: str, tab: Tuple[int, ...], lay: str) -> List[Tuple[str, int]]:
+    """[(route, longest sdkconfig file)] besides the `list` route; routes are crossed with the plain tree"""
+    if kind != "plain":
+        return []
+    again = lay in LAYOUTS_2_AGAIN and lay != "mm-mm"
+    out: List[Tuple[str, int]] = []
+    if tier == "quick":
+        if again or (lay == "mm-mm" and len(tab) > 1):
+            return []
+        out += [("env:" + sp, 1) for sp in splits_of(lay)]
+        if len(tab) == 1 or lay in ("aa-zz", "zz-aa"):
+            # the command line: the explicit flag alone / with the variable in both separators
+            out += [("kconfgen:" + sp, 1) for sp in splits_of(lay) if sp.startswith("explicit")]
+        return out
+    n = 2 if (len(tab) == 1 or lay in ("aa-zz", "zz-aa")) else 1
+    out += [("env:" + sp, n) for sp in splits_of(lay)]
+    if not again:
+        out += [("kconfgen:" + sp, 1) for sp in splits_of(lay)]
+    return out
+
+
+def route_args(route: str, paths: List[str]) -> Tuple[Optional[str], Optional[str], str]:
+    """(explicit file, value of COMPONENT_SDKCONFIG_RENAMES or None, list_separator)"""
+    split = route.split(":", 1)[1]
+    sepname = "semicolon" if split.endswith("semicolon") else "space"
+    sep = ";" if sepname == "semicolon" else " "
+    assert not any(" " in p or ";" in p for p in paths), paths
+    if split == "explicit":
+        assert len(paths) == 1
+        return paths[0], None, sepname
+    if split.startswith("explicit+"):
+        assert len(paths) >= 2
+        return paths[0], sep.join(paths[1:]), sepname
+    return None, sep.join(paths), sepname
+
+
 def file_length(tier: str, kind: str, tab: Tuple[int, ...], lay: str) -> int:
     """longest sdkconfig file the (tree, table, layout) is crossed with; 0: not explored"""
     full = 2 if tier == "quick" else 3
+    if kind in TREE_KINDS_NEW:
+        if lay != "mm" or not undefined_news(tab):
+            return 0
+        return full if len(tab) == 1 else full - 1
     if kind not in ("plain", "mention"):
         return full if tier != "quick" and len(tab) == 1 and lay == "mm" else 0
     if lay == "mm":
@@ -315,15 +435,18 @@ def line_alphabet(tab: Tuple[int, ...]) -> List[str]:
 
 
 def items(tier: str, seed: int):
-    work: Dict[Tuple[str, int], list] = {}
+    work: Dict[Tuple[str, int, str], list] = {}
     for tab, lay in tables(tier):
-        for kind in TREE_KINDS_QUICK + TREE_KINDS_SINGLE:
+        for kind in TREE_KINDS_QUICK + TREE_KINDS_SINGLE + TREE_KINDS_NEW:
             n = file_length(tier, kind, tab, lay)
             if n:
-                work.setdefault((kind, n), []).append((tab, lay))
+                work.setdefault((kind, n, "list"), []).append((tab, lay))
+            for route, rn in routes_of(tier, kind, tab, lay):
+                work.setdefault((kind, rn, route), []).append((tab, lay))
     out = []
-    for (kind, n), ts in work.items():
-        out += [{"tree": kind, "tables": ts[i:i + 6], "maxlen": n, "tier": tier} for i in range(0, len(ts), 6)]
+    for (kind, n, route), ts in work.items():
+        per = 6 if route == "list" else 24 if route.startswith("env:") else 12
+        out += [{"tree": kind, "tables": ts[i:i + per], "maxlen": n, "tier": tier, "route": route} for i in range(0, len(ts), per)]
     return out
 
 
@@ -383,14 +506,87 @@ def rename_paths(tab: Tuple[int, ...], layout: str) -> List[str]:
     return paths
 
 
-def make_inst(files, tab, layout: str) -> "impl.Inst":
+def make_inst(files, tab, layout: str, route: str = "list") -> "impl.Inst":
     inst = impl.Inst(files)
-    inst.k.load_rename_files(list(rename_paths(tab, layout)))
+    paths = list(rename_paths(tab, layout))
+    if route == "list":
+        inst.k.load_rename_files(paths)
+        return inst
+    assert route.startswith("env:"), route
+    from esp_kconfiglib.deprecated import load_rename_files_from_env
+
+    explicit, var, sepname = route_args(route, paths)
+    saved = os.environ.get("COMPONENT_SDKCONFIG_RENAMES")
+    try:
+        if var is None:
+            os.environ.pop("COMPONENT_SDKCONFIG_RENAMES", None)
+        else:
+            os.environ["COMPONENT_SDKCONFIG_RENAMES"] = var
+        load_rename_files_from_env(inst.k, sdkconfig_rename=explicit, list_separator=sepname)
+    finally:
+        if saved is None:
+            os.environ.pop("COMPONENT_SDKCONFIG_RENAMES", None)
+        else:
+            os.environ["COMPONENT_SDKCONFIG_RENAMES"] = saved
     return inst
 
 
-def observe(files, tab, layout, text, **kw):
-    inst = make_inst(files, tab, layout)
+def kconfgen_config(files, tab, layout: str, route: str, text: str) -> str:
+    """the sdkconfig that `kconfgen --kconfig K --config <file with `text`> [--sdkconfig-rename F] --list-separator S --output
+    config OUT` writes while COMPONENT_SDKCONFIG_RENAMES is set as the route says.  One invocation = one process: no report state
+    carried over, environment and exception hooks restored afterwards."""
+    import threading
+
+    import esp_kconfiglib.report as rep
+    import kconfgen.core as kg
+
+    explicit, var, sepname = route_args(route, list(rename_paths(tab, layout)))
+    kpath = impl.put_program(files)
+    sdk = impl.put_text(text, "kg.in")
+    out = impl.tmpfile("kg.out")
+    args = ["--kconfig", kpath, "--config", sdk, "--list-separator", sepname, "--output", "config", out]
+    if explicit is not None:
+        args += ["--sdkconfig-rename", explicit]
+    if rep.KconfigReport._instance is not None:
+        rep.KconfigReport._instance.reset()
+    saved_env = dict(os.environ)
+    hooks = (sys.excepthook, getattr(threading, "excepthook", None))
+    cwd = os.getcwd()
+    try:
+        os.chdir(os.path.dirname(kpath))
+        if var is None:
+            os.environ.pop("COMPONENT_SDKCONFIG_RENAMES", None)
+        else:
+            os.environ["COMPONENT_SDKCONFIG_RENAMES"] = var
+        try:
+            kg.main.main(args=args, standalone_mode=False)
+        except SystemExit as e:  # log.die(): the tool refuses the input
+            raise RuntimeError(f"kconfgen exited with {e.code}") from e
+        with open(out) as f:
+            return f.read()
+    finally:
+        os.chdir(cwd)
+        for k in list(os.environ):
+            if k not in saved_env:
+                del os.environ[k]
+        for k, v in saved_env.items():
+            if os.environ.get(k) != v:
+                os.environ[k] = v
+        sys.excepthook = hooks[0]
+        if hooks[1] is not None:
+            threading.excepthook = hooks[1]
+        for q in (sdk, out):
+            try:
+                os.unlink(q)
+            except OSError:
+                pass
+
+
+def observe(files, tab, layout, text, route: str = "list", **kw):
+    if route.startswith("kconfgen:"):
+        assert not kw
+        return None, {"config": kconfgen_config(files, tab, layout, route, text), "missing": []}
+    inst = make_inst(files, tab, layout, route)
     inst.load_text(text, **kw)
     k = inst.k
     return inst, {
@@ -422,28 +618,34 @@ def line_class(line: str, m) -> str:
     return role + ("=" + ("set" if val is not None else "notset"))
 
 
-def check_file(files, kind, tab, layout, lines: List[str], r: common.Result, cache: Optional[dict] = None) -> None:
+def check_file(files, kind, tab, layout, lines: List[str], r: common.Result, cache: Optional[dict] = None, route: str = "list") -> None:
     m = mapping_of(effective(tab, layout))
     text = "".join(l + "\n" for l in lines)
     ttext = "".join(l + "\n" for l in translate(lines, m))
     case = {"files": files, "tree": kind, "table": list(tab), "layout": layout, "lines": lines}
     label = f"[tree={kind} table={[ALPHABET[i] for i in tab]}{' listed as ' + layout if layout != 'mm' else ''} file={lines}]"
     lay = {} if layout == "mm" else {"rename_files": layout_class(layout)}
+    if route != "list":
+        case["route"] = route
+        label = label[:-1] + f" rename files delivered by {route}]"
+        lay["route"] = route
     classes = sorted(line_class(l, m) for l in lines)
     r.evals += 1
     try:
-        _, a = observe(files, tab, layout, text)
+        _, a = observe(files, tab, layout, text, route)
     except Exception as e:  # noqa: BLE001
         r.violation({"kind": "load_raises", "tree": kind, "exc": type(e).__name__, "site": site_of(e), "lines": classes, **lay}, f"{label} load raised {type(e).__name__}: {e}", case)
         return
     uses_old = text != ttext
     if not uses_old:
         b = a  # the file is its own translation: only the missing_syms / not-raising clauses apply
+        if cache is not None:
+            cache.setdefault(ttext, a)
     elif cache is not None and ttext in cache:
         b = cache[ttext]
     else:
         try:
-            _, b = observe(files, tab, layout, ttext)
+            _, b = observe(files, tab, layout, ttext, route)
         except Exception as e:  # noqa: BLE001
             r.violation({"kind": "load_raises", "tree": kind, "exc": type(e).__name__, "site": site_of(e), "lines": ["translated"] + classes, **lay},
                         f"{label} loading the translation {translate(lines, m)} raised {type(e).__name__}: {e}", case)
@@ -451,9 +653,9 @@ def check_file(files, kind, tab, layout, lines: List[str], r: common.Result, cac
         if cache is not None:
             cache[ttext] = b
     if uses_old:
-        r.outcome((kind, tab, layout, tuple(lines)))
+        r.outcome((kind, tab, layout, tuple(lines)) + ((route,) if route != "list" else ()))
     for key in ("values", "user", "config"):
-        if a[key] != b[key]:
+        if key in a and a[key] != b[key]:
             if key == "config":
                 d = f"{a[key]!r} vs {b[key]!r}"
             else:
@@ -478,35 +680,72 @@ def block_entries(lines: List[str]) -> Dict[str, Optional[str]]:
     return written
 
 
+def value_type(val: Optional[str]) -> str:
+    """type of an entry whose replacement is not a defined option: nothing but the written value tells it"""
+    if val is None or val in ("y", "n"):
+        return "bool"
+    if val.startswith(("0x", "0X")):
+        return "hex"
+    if val.lstrip("-").isdigit():
+        return "int"
+    return "string"
+
+
 def alias_clauses(k2, written, m, olds, kind, label, case, r: common.Result, extra: dict) -> None:
     """load_deprecated=True: every block entry evaluates to what was written and is not reported unknown"""
     for name, val in written.items():
         # is the alias also a node-less symbol of the tree because an expression of the tree mentions it?
         how = "mentioned_in_kconfig" if name in olds else "not_in_kconfig"
         new = m.get(name, (None, False))[0]
-        if TYPES.get(new) != "bool":
+        if new in TYPES:
+            t = TYPES[new]
+            repl = {}
+        else:
+            # replacement not defined (or no mapping): the entry still evaluates to what was written; is the replacement name
+            # a node-less symbol of the tree because a leftover expression mentions it?
+            t = value_type(val)
+            repl = {"replacement": "undefined+mentioned_in_kconfig" if kind in TREE_KINDS_NEW and new is not None else "undefined"}
+        if t != "bool":
             # non-bool aliases: compare by relation
-            if val is not None and new in TYPES:
+            if val is not None:
                 ev = k2.eval_string(f"{name} = {val}")
                 if ev != 2:
                     esc = {"written": "with_escapes"} if "\\" in val else {}  # (a string entry is written escaped, as the option's own line)
-                    r.violation({"kind": "alias_evaluates_differently", "tree": kind, "alias": how, "type": TYPES[new], **esc, **extra}, f"{label} load_deprecated: `{name} = {val}` evaluates to {ev}", case)
+                    r.violation({"kind": "alias_evaluates_differently", "tree": kind, "alias": how, "type": t, **repl, **esc, **extra}, f"{label} load_deprecated: `{name} = {val}` evaluates to {ev}", case)
             continue
         want = 2 if val == "y" else 0
         ev = k2.eval_string(name)
         if ev != want:
-            r.violation({"kind": "alias_evaluates_differently", "tree": kind, "alias": how, "type": "bool", "written": "y" if want else "n", **extra}, f"{label} load_deprecated: alias {name} written as {'y' if want else 'n'} evaluates to {ev}", case)
+            r.violation({"kind": "alias_evaluates_differently", "tree": kind, "alias": how, "type": "bool", **repl, "written": "y" if want else "n", **extra}, f"{label} load_deprecated: alias {name} written as {'y' if want else 'n'} evaluates to {ev}", case)
     lost = [n for n, _v in k2.missing_syms if n in written]
     if lost:
         hows = sorted({"mentioned_in_kconfig" if n in olds else "not_in_kconfig" for n in lost})
         r.violation({"kind": "requested_block_entry_reported_unknown", "tree": kind, "alias": "+".join(hows), **extra}, f"{label} load_deprecated: missing_syms lists the block entries {lost}", case)
 
 
+def tree_expression_clause(vals_after, written, olds, kind, label, case, r: common.Result, extra: dict) -> None:
+    """mention trees, load_deprecated=True: X<i> `default y if <rel>`, XDEP `depends on <rel>...`, XT selected `if <rel>` take the
+    value that <rel> has for the written entries (n for a mentioned name without an entry)"""
+    if not olds:
+        return
+    if any(o in written and written[o] is None and OLD_TYPE[o] not in ("bool", "any") for o in olds):
+        return  # `is not set` written for a number / string alias: no value was written, <rel> carries no demand
+    holds = [rel_holds(o, written.get(o)) if o in written else False for o in olds]
+    want_x = {f"X{j}": h for j, h in enumerate(holds)}
+    want_x["XDEP"] = any(holds)
+    want_x["XT"] = any(holds)
+    diff = {n: (vals_after[n], "y" if w else "n") for n, w in sorted(want_x.items()) if n in vals_after and vals_after[n] != ("y" if w else "n")}
+    if diff:
+        pos = sorted({"default_if" if n.startswith("X") and n[1:].isdigit() else {"XDEP": "depends_on", "XT": "select_if"}[n] for n in diff})
+        r.violation({"kind": "tree_expression_over_alias_differs", "tree": kind, "alias": "mentioned_in_kconfig", "position": pos, **extra},
+                    f"{label} load_deprecated: block entries {written} but the options whose conditions mention them are (got, want) {diff}", case)
+
+
 def check_block(files, kind, tab, layout, assign: Dict[str, str], r: common.Result) -> None:
     m = mapping_of(effective(tab, layout))
     case = {"files": files, "tree": kind, "table": list(tab), "layout": layout, "block_assign": assign}
     label = f"[tree={kind} table={[ALPHABET[i] for i in tab]} cfg={assign} deprecated block]"
-    olds = mentioned_olds(tab) if kind != "plain" else []
+    olds = mentioned_olds(tab) if mentions_olds(kind) else []
     r.evals += 1
     try:
         inst = make_inst(files, tab, layout)
@@ -562,16 +801,7 @@ def check_block(files, kind, tab, layout, assign: Dict[str, str], r: common.Resu
         alias_clauses(k2, written, m, olds, kind, label, case, r, {})
         vals_after = inst2.values()
         # the tree's own expressions over the aliases (mention trees)
-        if olds:
-            holds = [rel_holds(o, written.get(o)) for o in olds]
-            want_x = {f"X{j}": h for j, h in enumerate(holds)}
-            want_x["XDEP"] = any(holds)
-            want_x["XT"] = any(holds)
-            diff = {n: (vals_after[n], "y" if w else "n") for n, w in sorted(want_x.items()) if n in vals_after and vals_after[n] != ("y" if w else "n")}
-            if diff:
-                pos = sorted({"default_if" if n.startswith("X") and n[1:].isdigit() else {"XDEP": "depends_on", "XT": "select_if"}[n] for n in diff})
-                r.violation({"kind": "tree_expression_over_alias_differs", "tree": kind, "alias": "mentioned_in_kconfig", "position": pos},
-                            f"{label} load_deprecated: block entries {written} but the options whose conditions mention them are (got, want) {diff}", case)
+        tree_expression_clause(vals_after, written, olds, kind, label, case, r, {})
         # (an old name that is ALSO a defined option is assigned by its block entry when the block is requested; the
         # statement only says such entries evaluate to what was written, so that table is exempt from this sanity clause)
         after = {n: v for n, v in vals_after.items() if n in TYPES}
@@ -705,7 +935,7 @@ def check_composed_requested(files, kind, tab, layout, tokens, r: common.Result,
     case = {"files": files, "tree": kind, "table": list(tab), "layout": layout, "composed": tokens, "requested": True}
     label = f"[tree={kind} table={[ALPHABET[i] for i in tab]} composed file {tokens} load_deprecated=True]"
     memo = memo if memo is not None else {}
-    olds = mentioned_olds(tab) if kind != "plain" else []
+    olds = mentioned_olds(tab) if mentions_olds(kind) else []
     r.evals += 1
     try:
         text = render_tokens(files, tab, layout, tokens, memo)
@@ -740,6 +970,9 @@ def check_composed_requested(files, kind, tab, layout, tokens, r: common.Result,
                             f"{label} options differ from the file with the block(s) cut out in {key} (got, want): {d}", case)
                 break
         alias_clauses(inst2.k, written, m, olds, kind, label, case, r, {"shape": shape})
+        if all(n in written for n in vals):
+            # every entry is determinate (written once / with one value, not named by an outside line)
+            tree_expression_clause(got["values"], written, olds, kind, label, case, r, {"shape": shape})
     except Exception as e:  # noqa: BLE001
         r.violation({"kind": "block_load_raises", "tree": kind, "shape": shape, "requested": True, "exc": type(e).__name__, "site": site_of(e)}, f"{label} raised {type(e).__name__}: {e}", case)
 
@@ -760,6 +993,9 @@ def composed_files(la: List[str], level: int) -> Iterator[list]:
     for t in la:
         yield [B(), L(t)]
     for e in la:
+        yield [B(e)]                    # nothing but a block (no line outside names the entry)
+        yield [U(e)]
+    for e in la:
         for t in la:
             yield [B(e), L(t)]          # block first, a line follows (same / other name, contradicting or not)
             yield [L(t), B(e)]          # block at the end
@@ -773,6 +1009,10 @@ def composed_files(la: List[str], level: int) -> Iterator[list]:
             for u in la:
                 if u != t:
                     yield [["W", cfg], L(t), L(u)]
+    for e in la:
+        for u in la:
+            if parse_line(u)[0] != parse_line(e)[0]:
+                yield [B(e, u)]         # a block with entries for two names
     for e in la:
         for t in la:
             for u in la:
@@ -790,12 +1030,13 @@ def composed_level(tier: str, kind: str, tab, layout: str) -> int:
         return 2 if len(tab) == 1 else 1
     if len(tab) == 1:
         return 3
-    return 2 if kind == "plain" else 1
+    return 2 if kind == "plain" or kind in TREE_KINDS_NEW else 1
 
 
 def run_item(item) -> common.Result:
     r = common.Result()
     kind = item["tree"]
+    route = item.get("route", "list")
     nfiles = 0
     sample_files = None
     for tab, layout in item["tables"]:
@@ -807,10 +1048,14 @@ def run_item(item) -> common.Result:
         sample_files = sample_files or (files, tab, layout)
         la = line_alphabet(tab)
         cache: dict = {}
+        n0 = nfiles
         for n in range(1, item["maxlen"] + 1):
             for lines in itertools.permutations(la, n):
-                check_file(files, kind, tab, layout, list(lines), r, cache)
+                check_file(files, kind, tab, layout, list(lines), r, cache, route)
                 nfiles += 1
+        if route != "list":
+            r.count("files_by_route:" + route.split(":")[0], nfiles - n0)
+            continue
         if layout == "mm":
             for cfg in BLOCK_CFGS:
                 check_block(files, kind, tab, layout, cfg, r)
@@ -823,7 +1068,8 @@ def run_item(item) -> common.Result:
         files, tab, layout = sample_files
         content, listing = layout_files(tab, layout)
         r.sample = {"tree": kind, "kconfig": files["Kconfig"], "rename_files": {d + "/sdkconfig.rename": [ALPHABET[i] for i in idxs] for d, idxs in content.items()},
-                    "rename_files_listed_as": listing, "sdkconfig_files_per_table": nfiles // max(1, len(item["tables"])), "example_file": line_alphabet(tab)[:2]}
+                    "rename_files_listed_as": listing, "rename_files_delivered_by": route,
+                    "sdkconfig_files_per_table": nfiles // max(1, len(item["tables"])), "example_file": line_alphabet(tab)[:2]}
     return r
 
 
@@ -833,7 +1079,7 @@ def replay(case) -> List[dict]:
     layout = case["layout"] if "layout" in case else ("aa-zz" if case.get("split") else "mm")  # (`split`: replay files of older versions)
     tab = tuple(case["table"])
     if "lines" in case:
-        check_file(case["files"], kind, tab, layout, case["lines"], r)
+        check_file(case["files"], kind, tab, layout, case["lines"], r, None, case.get("route", "list"))
     elif "composed" in case and case.get("requested"):
         check_composed_requested(case["files"], kind, tab, layout, case["composed"], r)
     elif "composed" in case:
